@@ -45,14 +45,14 @@ Proof. intros [H1 H2] [H3 H4]. split; congruence. Qed.
 
 Lemma proj_gmap {A B} (f : A -> B) (v : gval A) : proj (gmap f v) = proj v.
 Proof.
-  induction v as [| | | | |a IHa b IHb| |a IHa| |k t h]; simpl; try reflexivity.
+  induction v as [| | | | |a IHa b IHb| |a IHa| |k t h|bb|la lr lbody]; simpl; try reflexivity.
   - rewrite IHa, IHb. reflexivity.
   - rewrite IHa. reflexivity.
 Qed.
 
 Lemma type_of_gmap {A B} (f : A -> B) (v : gval A) : type_of (gmap f v) = type_of v.
 Proof.
-  induction v as [| | | | |a IHa b IHb| |a IHa| |k t h]; simpl; try reflexivity.
+  induction v as [| | | | |a IHa b IHb| |a IHa| |k t h|bb|la lr lbody]; simpl; try reflexivity.
   - rewrite IHa, IHb. reflexivity.
   - rewrite IHa. reflexivity.
 Qed.
@@ -60,7 +60,7 @@ Qed.
 Lemma gmap_gmap {A B C} (f : A -> B) (g : B -> C) (v : gval A) :
   gmap g (gmap f v) = gmap (fun x => g (f x)) v.
 Proof.
-  induction v as [| | | | |a IHa b IHb| |a IHa| |k t h]; simpl; try reflexivity.
+  induction v as [| | | | |a IHa b IHb| |a IHa| |k t h|bb|la lr lbody]; simpl; try reflexivity.
   - rewrite IHa, IHb. reflexivity.
   - rewrite IHa. reflexivity.
 Qed.
@@ -68,7 +68,7 @@ Qed.
 Lemma gmap_ext {A B} (f g : A -> B) (v : gval A) :
   (forall x, In x (handles_of v) -> f x = g x) -> gmap f v = gmap g v.
 Proof.
-  induction v as [| | | | |a IHa b IHb| |a IHa| |k t h]; simpl; intro H; try reflexivity.
+  induction v as [| | | | |a IHa b IHb| |a IHa| |k t h|bb|la lr lbody]; simpl; intro H; try reflexivity.
   - rewrite IHa, IHb; auto; intros x Hx; apply H; apply in_or_app; auto.
   - rewrite IHa; auto.
   - rewrite H; auto.
@@ -77,7 +77,7 @@ Qed.
 Lemma gmap_inj_sval {B} (f : handle -> B) (v : sval) : gmap f (inj v) = inj v.
 Proof.
   unfold inj.
-  induction v as [| | | | |a IHa b IHb| |a IHa| |k t h]; simpl; try reflexivity.
+  induction v as [| | | | |a IHa b IHb| |a IHa| |k t h|bb|la lr lbody]; simpl; try reflexivity.
   - rewrite IHa, IHb. reflexivity.
   - rewrite IHa. reflexivity.
   - destruct h.
@@ -86,7 +86,7 @@ Qed.
 Lemma vwf_inj cur (v : sval) : vwf cur (inj v).
 Proof.
   unfold inj.
-  induction v as [| | | | |a IHa b IHb| |a IHa| |k t h]; simpl; auto.
+  induction v as [| | | | |a IHa b IHb| |a IHa| |k t h|bb|la lr lbody]; simpl; auto.
   destruct h.
 Qed.
 
@@ -95,7 +95,7 @@ Proof. unfold cz. rewrite gmap_gmap. reflexivity. Qed.
 
 Lemma vwf_cz v : vwf 0 (cz v).
 Proof.
-  induction v as [| | | | |a IHa b IHb| |a IHa| |k t h]; simpl; auto.
+  induction v as [| | | | |a IHa b IHb| |a IHa| |k t h|bb|la lr lbody]; simpl; auto.
 Qed.
 
 Lemma lwf_cz l : lwf 0 (map cz l).
@@ -103,7 +103,7 @@ Proof. induction l as [|a r IH]; simpl; auto using vwf_cz. Qed.
 
 Lemma cz_rebind old new v : vwf old v -> cz (gmap (rebind old new) v) = cz v /\ vwf new (gmap (rebind old new) v).
 Proof.
-  induction v as [| | | | |a IHa b IHb| |a IHa| |k t h]; simpl; intro H; auto.
+  induction v as [| | | | |a IHa b IHb| |a IHa| |k t h|bb|la lr lbody]; simpl; intro H; auto.
   - destruct H as [Ha Hb]. destruct (IHa Ha) as [E1 W1]. destruct (IHb Hb) as [E2 W2].
     unfold cz in *. simpl. rewrite E1, E2. auto.
   - destruct (IHa H) as [E1 W1]. unfold cz in *. simpl. rewrite E1. auto.
@@ -291,33 +291,76 @@ Proof.
     simpl. split; [reflexivity|intros; discriminate].
   - (* DIP: not a flat instruction *)
     simpl. split; [reflexivity|intros; discriminate].
-  - (* IF_NONE: not a flat instruction *)
+  - (* IF_NONE *)
     simpl. split; [reflexivity|intros; discriminate].
+  - (* DIP n *)
+    simpl. split; [reflexivity|intros; discriminate].
+  - (* IF *)
+    simpl. split; [reflexivity|intros; discriminate].
+  - (* LOOP *)
+    simpl. split; [reflexivity|intros; discriminate].
+  - (* LAMBDA *)
+    simpl. split; [reflexivity|]. intros s' E. injection E as <-. simpl in *. tauto.
+  - (* EXEC *)
+    simpl. split; [reflexivity|intros; discriminate].
+  - (* PATCH *)
+    simpl. split; [reflexivity|]. intros s' E. injection E as <-. simpl in *. tauto.
 Qed.
 
-(* outcomes related by [canon]: both finish (canonical images equal, same outputs) or both fail *)
+(* outcomes related by [canon]: both finish (canonical images equal, same outputs) or both fail,
+   for the same reason (an ordinary failure, or the model's fuel ran out) *)
 Definition orel {A} (a b : outcome (session * A)) : Prop :=
   match a, b with
   | Done (s', o), Done (c', o') => c' = canon s' /\ o' = o
-  | Failed _, Failed _ => True
+  | Failed x _, Failed y _ => x = y
   | _, _ => False
   end.
 
 Definition mrel (a b : outcome session) : Prop :=
   match a, b with
   | Done s', Done c' => c' = canon s'
-  | Failed _, Failed _ => True
+  | Failed x _, Failed y _ => x = y
   | _, _ => False
   end.
 
+(* what is proved of an executor [ex] at an instruction / at an instruction list *)
+Definition Pe (ex : minstr -> session -> outcome session) (i : minstr) : Prop := forall s,
+  swf s ->
+  mrel (ex i s) (ex i (canon s)) /\
+  (forall s', ex i s = Done s' -> swf s' /\ frame s s').
+
+Definition Pl (ex : minstr -> session -> outcome session) (l : list minstr) : Prop := forall s,
+  swf s ->
+  mrel (runl ex l s) (runl ex l (canon s)) /\
+  (forall s', runl ex l s = Done s' -> swf s' /\ frame s s').
+
+Lemma runl_forall ex l : Forall (Pe ex) l -> Pl ex l.
+Proof.
+  induction 1 as [|i r Hi Hr IH]; intros s W; simpl.
+  - split; [reflexivity|]. intros s' E. injection E as <-. auto using frame_refl.
+  - destruct (Hi s W) as [R1 R2].
+    destruct (ex i s) as [s1|b sf], (ex i (canon s)) as [c1|b' cf]; simpl in R1; try contradiction.
+    + subst c1. destruct (R2 s1 eq_refl) as [W1 F1]. destruct (IH s1 W1) as [R3 R4].
+      split; [exact R3|]. intros s' E. destruct (R4 s' E) as [W' F']. eauto using frame_trans.
+    + split; [exact R1|]. intros; discriminate.
+Qed.
+
 (* induction on instructions with access to the hypothesis for the nested bodies *)
-Definition flat (i : minstr) : Prop := match i with MDip _ | MIfNone _ _ => False | _ => True end.
+Definition flat (i : minstr) : Prop :=
+  match i with
+  | MDip _ | MIfNone _ _ | MDipN _ _ | MIf _ _ | MLoop _ | MExec => False
+  | _ => True
+  end.
 
 Section MinstrInd.
   Variable P : minstr -> Prop.
   Hypothesis Hflat : forall i, flat i -> P i.
   Hypothesis HDip : forall b, Forall P b -> P (MDip b).
-  Hypothesis HIf : forall bt bf, Forall P bt -> Forall P bf -> P (MIfNone bt bf).
+  Hypothesis HIfNone : forall bt bf, Forall P bt -> Forall P bf -> P (MIfNone bt bf).
+  Hypothesis HDipN : forall n b, Forall P b -> P (MDipN n b).
+  Hypothesis HIf : forall bt bf, Forall P bt -> Forall P bf -> P (MIf bt bf).
+  Hypothesis HLoop : forall b, Forall P b -> P (MLoop b).
+  Hypothesis HExec : P MExec.
 
   Fixpoint minstr_ind' (i : minstr) : P i :=
     let fix go (l : list minstr) : Forall P l :=
@@ -327,115 +370,237 @@ Section MinstrInd.
         end in
     match i with
     | MDip b => HDip b (go b)
-    | MIfNone bt bf => HIf bt bf (go bt) (go bf)
+    | MIfNone bt bf => HIfNone bt bf (go bt) (go bf)
+    | MDipN n b => HDipN n b (go b)
+    | MIf bt bf => HIf bt bf (go bt) (go bf)
+    | MLoop b => HLoop b (go b)
+    | MExec => HExec
     | MPush t l => Hflat (MPush t l) I
     | MDrop => Hflat MDrop I | MDup => Hflat MDup I | MSwap => Hflat MSwap I | MPair => Hflat MPair I
     | MUnpair => Hflat MUnpair I | MCar => Hflat MCar I | MCdr => Hflat MCdr I | MSome => Hflat MSome I
     | MNone t => Hflat (MNone t) I | MNil t => Hflat (MNil t) I | MUnit => Hflat MUnit I
     | MEmptyBigMap k v => Hflat (MEmptyBigMap k v) I | MUpdate => Hflat MUpdate I | MGet => Hflat MGet I
     | MGetAndUpdate => Hflat MGetAndUpdate I | MAdd => Hflat MAdd I | MFailwith => Hflat MFailwith I
+    | MLambda a r b => Hflat (MLambda a r b) I
+    | MPatch f v => Hflat (MPatch f v) I
     end.
 End MinstrInd.
 
-Lemma mexec_flat i s :
-  flat i -> mexec i s = match mstep i s with Some s' => Done s' | None => Failed s end.
+(* unfolding of [mexec (S f)] *)
+Lemma mexec_flat f i s :
+  flat i -> mexec (S f) i s = match mstep i s with Some s' => Done s' | None => Failed false s end.
 Proof. destruct i; simpl; intro F; try contradiction; reflexivity. Qed.
 
-Lemma mexec_dip body s :
-  mexec (MDip body) s =
+Lemma mexec_dip f body s :
+  mexec (S f) (MDip body) s =
   match s_stack s with
   | a :: r =>
-      match mrun body (with_stack s r) with
+      match runl (mexec (S f)) body (with_stack s r) with
       | Done s' => Done (with_stack s' (a :: s_stack s'))
-      | Failed f => Failed f
+      | Failed b x => Failed b x
       end
-  | [] => Failed s
+  | [] => Failed false s
   end.
 Proof. reflexivity. Qed.
 
-Lemma mexec_ifnone bt bf s :
-  mexec (MIfNone bt bf) s =
+Lemma mexec_dipn f n body s :
+  mexec (S f) (MDipN n body) s =
+  if Nat.leb n (List.length (s_stack s)) then
+    match runl (mexec (S f)) body (with_stack s (skipn n (s_stack s))) with
+    | Done s' => Done (with_stack s' (firstn n (s_stack s) ++ s_stack s'))
+    | Failed b x => Failed b x
+    end
+  else Failed false s.
+Proof. reflexivity. Qed.
+
+Lemma mexec_ifnone f bt bf s :
+  mexec (S f) (MIfNone bt bf) s =
   match s_stack s with
-  | GNone _ :: r => mrun bt (with_stack s r)
-  | GSome a :: r => mrun bf (with_stack s (a :: r))
-  | _ => Failed s
+  | GNone _ :: r => runl (mexec (S f)) bt (with_stack s r)
+  | GSome a :: r => runl (mexec (S f)) bf (with_stack s (a :: r))
+  | _ => Failed false s
   end.
 Proof. reflexivity. Qed.
 
-Definition Pm (i : minstr) : Prop := forall s,
-  swf s ->
-  mrel (mexec i s) (mexec i (canon s)) /\
-  (forall s', mexec i s = Done s' -> swf s' /\ frame s s').
+Lemma mexec_if f bt bf s :
+  mexec (S f) (MIf bt bf) s =
+  match s_stack s with
+  | GBool true :: r => runl (mexec (S f)) bt (with_stack s r)
+  | GBool false :: r => runl (mexec (S f)) bf (with_stack s r)
+  | _ => Failed false s
+  end.
+Proof. reflexivity. Qed.
 
-Lemma mrun_forall l : Forall Pm l -> forall s,
-  swf s ->
-  mrel (mrun l s) (mrun l (canon s)) /\
-  (forall s', mrun l s = Done s' -> swf s' /\ frame s s').
+Lemma mexec_loop f body s :
+  mexec (S f) (MLoop body) s =
+  match s_stack s with
+  | GBool true :: r =>
+      match runl (mexec (S f)) body (with_stack s r) with
+      | Done s' => mexec f (MLoop body) s'
+      | Failed b x => Failed b x
+      end
+  | GBool false :: r => Done (with_stack s r)
+  | _ => Failed false s
+  end.
+Proof. reflexivity. Qed.
+
+Lemma mexec_exec f s :
+  mexec (S f) MExec s =
+  match s_stack s with
+  | arg :: GLam a r body :: rest =>
+      if ty_eqb (type_of arg) a then
+        match runl (mexec f) body (with_stack s [arg]) with
+        | Done s' =>
+            match s_stack s' with
+            | [res] => if ty_eqb (type_of res) r then Done (with_stack s' (res :: rest)) else Failed false s'
+            | _ => Failed false s'
+            end
+        | Failed b x => Failed b x
+        end
+      else Failed false s
+  | _ => Failed false s
+  end.
+Proof. reflexivity. Qed.
+
+Lemma lwf_app cur a b : lwf cur a -> lwf cur b -> lwf cur (a ++ b).
+Proof. induction a as [|x a IH]; simpl; [auto|]. intros [Hx Ha] Hb. auto. Qed.
+
+Lemma lwf_firstn cur n : forall l, lwf cur l -> lwf cur (firstn n l).
+Proof. induction n as [|n IH]; intros [|x l]; simpl; auto. intros [Hx Hl]. auto. Qed.
+
+Lemma lwf_skipn cur n : forall l, lwf cur l -> lwf cur (skipn n l).
+Proof. induction n as [|n IH]; intros [|x l]; simpl; auto. intros [Hx Hl]. auto. Qed.
+
+(* a step on the canonical image of a session whose stack was replaced *)
+Lemma canon_with_stack s st : canon (with_stack s st) = with_stack (canon s) (map cz st).
+Proof. reflexivity. Qed.
+
+Lemma mexec_canon : forall fuel i, Pe (mexec fuel) i.
 Proof.
-  induction 1 as [|i r Hi Hr IH]; intros s W; simpl.
-  - split; [reflexivity|]. intros s' E. injection E as <-. auto using frame_refl.
-  - destruct (Hi s W) as [R1 R2].
-    destruct (mexec i s) as [s1|sf], (mexec i (canon s)) as [c1|cf]; simpl in R1; try contradiction.
-    + subst c1. destruct (R2 s1 eq_refl) as [W1 F1]. destruct (IH s1 W1) as [R3 R4].
-      split; [exact R3|]. intros s' E. destruct (R4 s' E) as [W' F']. eauto using frame_trans.
-    + split; [exact I|]. intros; discriminate.
+  induction fuel as [|f IHf].
+  - intros i s W. simpl. split; [reflexivity|intros; discriminate].
+  - assert (IHl : forall l, Pl (mexec f) l) by (intro l; apply runl_forall, Forall_forall; intros i _; apply IHf).
+    apply minstr_ind'.
+    + (* flat instructions *)
+      intros i F s W. rewrite !(mexec_flat f i _ F).
+      destruct (mstep_canon i s W) as [E1 E2]. rewrite E1.
+      destruct (mstep i s) as [s1|]; simpl; [|split; [reflexivity|intros; discriminate]].
+      split; [reflexivity|]. intros s' E. injection E as <-. auto.
+    + (* DIP *)
+      intros body Hb s W. rewrite !mexec_dip.
+      destruct s as [st cur ctx stale nxt]. destruct st as [|a r]; simpl s_stack; [split; [reflexivity|intros; discriminate]|].
+      simpl map. unfold swf in W. simpl in W. destruct W as [Wa Wr].
+      assert (W0 : swf (with_stack (mkS (a :: r) cur ctx stale nxt) r)) by exact Wr.
+      destruct (runl_forall _ body Hb _ W0) as [R1 R2].
+      change (with_stack (canon (mkS (a :: r) cur ctx stale nxt)) (map cz r))
+        with (canon (with_stack (mkS (a :: r) cur ctx stale nxt) r)).
+      destruct (runl _ body (with_stack (mkS (a :: r) cur ctx stale nxt) r)) as [s1|b sf],
+               (runl _ body (canon (with_stack (mkS (a :: r) cur ctx stale nxt) r))) as [c1|b' cf];
+        simpl in R1; try contradiction.
+      * subst c1. destruct (R2 s1 eq_refl) as [W1 [C1 N1]]. simpl in C1, N1.
+        split; [reflexivity|]. intros s' E. injection E as <-. unfold swf, frame. simpl.
+        unfold swf in W1. rewrite C1 in W1. rewrite C1. repeat split; auto.
+      * split; [exact R1|]. intros; discriminate.
+    + (* IF_NONE *)
+      intros bt bf Ht Hf s W. rewrite !mexec_ifnone.
+      destruct s as [st cur ctx stale nxt]. destruct st as [|top r]; simpl s_stack; [split; [reflexivity|intros; discriminate]|].
+      simpl map. unfold swf in W. simpl in W. destruct W as [Wt Wr].
+      destruct top; simpl cz; try (split; [reflexivity|intros; discriminate]).
+      * assert (W0 : swf (with_stack (mkS (GNone t :: r) cur ctx stale nxt) r)) by exact Wr.
+        destruct (runl_forall _ bt Ht _ W0) as [R1 R2].
+        split; [exact R1|]. intros s' E. destruct (R2 s' E) as [W' F']. split; [exact W'|exact F'].
+      * assert (W0 : swf (with_stack (mkS (GSome top :: r) cur ctx stale nxt) (top :: r))) by (split; assumption).
+        destruct (runl_forall _ bf Hf _ W0) as [R1 R2].
+        split; [exact R1|]. intros s' E. destruct (R2 s' E) as [W' F']. split; [exact W'|exact F'].
+    + (* DIP n *)
+      intros n body Hb s W. rewrite !mexec_dipn.
+      destruct s as [st cur ctx stale nxt]. unfold swf in W. simpl in W.
+      simpl s_stack. rewrite map_length.
+      destruct (Nat.leb n (List.length st)); [|split; [reflexivity|intros; discriminate]].
+      assert (W0 : swf (with_stack (mkS st cur ctx stale nxt) (skipn n st))) by (apply lwf_skipn, W).
+      destruct (runl_forall _ body Hb _ W0) as [R1 R2].
+      rewrite skipn_map, firstn_map.
+      change (with_stack (canon (mkS st cur ctx stale nxt)) (map cz (skipn n st)))
+        with (canon (with_stack (mkS st cur ctx stale nxt) (skipn n st))).
+      destruct (runl _ body (with_stack (mkS st cur ctx stale nxt) (skipn n st))) as [s1|b sf],
+               (runl _ body (canon (with_stack (mkS st cur ctx stale nxt) (skipn n st)))) as [c1|b' cf];
+        simpl in R1; try contradiction.
+      * subst c1. destruct (R2 s1 eq_refl) as [W1 [C1 N1]]. simpl in C1, N1.
+        split.
+        -- simpl. unfold canon, with_stack. simpl. f_equal. symmetry. apply map_app.
+        -- intros s' E. injection E as <-. unfold swf, frame. simpl.
+           unfold swf in W1. rewrite C1 in W1. rewrite C1. repeat split; auto.
+           apply lwf_app; [apply lwf_firstn, W|exact W1].
+      * split; [exact R1|]. intros; discriminate.
+    + (* IF *)
+      intros bt bf Ht Hf s W. rewrite !mexec_if.
+      destruct s as [st cur ctx stale nxt]. destruct st as [|top r]; simpl s_stack; [split; [reflexivity|intros; discriminate]|].
+      simpl map. unfold swf in W. simpl in W. destruct W as [Wt Wr].
+      destruct top; simpl cz; try (split; [reflexivity|intros; discriminate]).
+      assert (W0 : swf (with_stack (mkS (GBool b :: r) cur ctx stale nxt) r)) by exact Wr.
+      destruct b.
+      * destruct (runl_forall _ bt Ht _ W0) as [R1 R2].
+        split; [exact R1|]. intros s' E. destruct (R2 s' E) as [W' F']. split; [exact W'|exact F'].
+      * destruct (runl_forall _ bf Hf _ W0) as [R1 R2].
+        split; [exact R1|]. intros s' E. destruct (R2 s' E) as [W' F']. split; [exact W'|exact F'].
+    + (* LOOP *)
+      intros body Hb s W. rewrite !mexec_loop.
+      destruct s as [st cur ctx stale nxt]. destruct st as [|top r]; simpl s_stack; [split; [reflexivity|intros; discriminate]|].
+      simpl map. unfold swf in W. simpl in W. destruct W as [Wt Wr].
+      destruct top; simpl cz; try (split; [reflexivity|intros; discriminate]).
+      assert (W0 : swf (with_stack (mkS ((GBool b : value) :: r) cur ctx stale nxt) r)) by exact Wr.
+      destruct b.
+      * destruct (runl_forall _ body Hb _ W0) as [R1 R2].
+        change (with_stack (canon (mkS ((GBool true : value) :: r) cur ctx stale nxt)) (map cz r))
+          with (canon (with_stack (mkS ((GBool true : value) :: r) cur ctx stale nxt) r)).
+        destruct (runl _ body (with_stack (mkS ((GBool true : value) :: r) cur ctx stale nxt) r)) as [s1|b sf],
+                 (runl _ body (canon (with_stack (mkS ((GBool true : value) :: r) cur ctx stale nxt) r))) as [c1|b' cf];
+          simpl in R1; try contradiction.
+        -- subst c1. destruct (R2 s1 eq_refl) as [W1 F1].
+           destruct (IHf (MLoop body) s1 W1) as [R3 R4].
+           split; [exact R3|]. intros s' E. destruct (R4 s' E) as [W' F'].
+           split; [exact W'|]. apply (frame_trans _ s1); [exact F1|exact F'].
+        -- split; [exact R1|]. intros; discriminate.
+      * split; [reflexivity|]. intros s' E. injection E as <-. split; [exact Wr|split; reflexivity].
+    + (* EXEC *)
+      intros s W. rewrite !mexec_exec.
+      destruct s as [st cur ctx stale nxt]. destruct st as [|arg [|lam rest]]; simpl s_stack;
+        try (split; [reflexivity|intros; discriminate]).
+      simpl map. unfold swf in W. simpl in W. destruct W as (Wa & Wl & Wr).
+      destruct lam; simpl cz; try (split; [reflexivity|intros; discriminate]).
+      change (cz (@GLam handle a r body)) with (@GLam handle a r body). cbv beta iota.
+      change (type_of (cz arg)) with (type_of (gmap (set_ctx 0) arg)). rewrite type_of_gmap.
+      destruct (ty_eqb (type_of arg) a); [|split; [reflexivity|intros; discriminate]].
+      assert (W0 : swf (with_stack (mkS (arg :: (GLam a r body : value) :: rest) cur ctx stale nxt) [arg])) by (split; [exact Wa|exact I]).
+      destruct (IHl body _ W0) as [R1 R2].
+      change (with_stack (canon (mkS (arg :: (GLam a r body : value) :: rest) cur ctx stale nxt)) [cz arg])
+        with (canon (with_stack (mkS (arg :: (GLam a r body : value) :: rest) cur ctx stale nxt) [arg])).
+      destruct (runl _ body (with_stack (mkS (arg :: (GLam a r body : value) :: rest) cur ctx stale nxt) [arg])) as [s1|b sf],
+               (runl _ body (canon (with_stack (mkS (arg :: (GLam a r body : value) :: rest) cur ctx stale nxt) [arg]))) as [c1|b' cf];
+        simpl in R1; try contradiction.
+      * subst c1. destruct (R2 s1 eq_refl) as [W1 [C1 N1]]. simpl in C1, N1.
+        destruct s1 as [st1 cur1 ctx1 stale1 nxt1]. simpl in C1, N1. subst cur1 nxt1.
+        unfold swf in W1. simpl in W1.
+        destruct st1 as [|res [|x y]]; simpl; try (split; [reflexivity|intros; discriminate]).
+        change (type_of (cz res)) with (type_of (gmap (set_ctx 0) res)). rewrite type_of_gmap.
+        destruct (ty_eqb (type_of res) r); [|split; [reflexivity|intros; discriminate]].
+        split; [reflexivity|]. intros s' E. injection E as <-. unfold swf, frame. simpl.
+        destruct W1 as [Wres _]. repeat split; auto.
+      * split; [exact R1|]. intros; discriminate.
 Qed.
 
-Lemma mexec_canon : forall i, Pm i.
-Proof.
-  apply minstr_ind'.
-  - (* flat instructions *)
-    intros i F s W. rewrite !(mexec_flat i _ F).
-    destruct (mstep_canon i s W) as [E1 E2]. rewrite E1.
-    destruct (mstep i s) as [s1|]; simpl; [|split; [exact I|intros; discriminate]].
-    split; [reflexivity|]. intros s' E. injection E as <-. auto.
-  - (* DIP *)
-    intros body Hb s W. rewrite !mexec_dip.
-    destruct s as [st cur ctx stale nxt]. destruct st as [|a r]; simpl s_stack; [split; [exact I|intros; discriminate]|].
-    simpl map. unfold swf in W. simpl in W. destruct W as [Wa Wr].
-    assert (W0 : swf (with_stack (mkS (a :: r) cur ctx stale nxt) r)) by exact Wr.
-    destruct (mrun_forall body Hb _ W0) as [R1 R2].
-    change (with_stack (canon (mkS (a :: r) cur ctx stale nxt)) (map cz r))
-      with (canon (with_stack (mkS (a :: r) cur ctx stale nxt) r)).
-    destruct (mrun body (with_stack (mkS (a :: r) cur ctx stale nxt) r)) as [s1|sf],
-             (mrun body (canon (with_stack (mkS (a :: r) cur ctx stale nxt) r))) as [c1|cf];
-      simpl in R1; try contradiction.
-    + subst c1. destruct (R2 s1 eq_refl) as [W1 [C1 N1]]. simpl in C1, N1.
-      split; [reflexivity|]. intros s' E. injection E as <-. unfold swf, frame. simpl.
-      unfold swf in W1. rewrite C1 in W1. rewrite C1. repeat split; auto.
-    + split; [exact I|]. intros; discriminate.
-  - (* IF_NONE *)
-    intros bt bf Ht Hf s W. rewrite !mexec_ifnone.
-    destruct s as [st cur ctx stale nxt]. destruct st as [|top r]; simpl s_stack; [split; [exact I|intros; discriminate]|].
-    simpl map. unfold swf in W. simpl in W. destruct W as [Wt Wr].
-    destruct top; simpl cz; try (split; [exact I|intros; discriminate]).
-    + (* None *)
-      assert (W0 : swf (with_stack (mkS (GNone t :: r) cur ctx stale nxt) r)) by exact Wr.
-      destruct (mrun_forall bt Ht _ W0) as [R1 R2].
-      change (with_stack (canon (mkS (GNone t :: r) cur ctx stale nxt)) (map cz r))
-        with (canon (with_stack (mkS (GNone t :: r) cur ctx stale nxt) r)).
-      split; [exact R1|]. intros s' E. destruct (R2 s' E) as [W' F']. split; [exact W'|exact F'].
-    + (* Some *)
-      assert (W0 : swf (with_stack (mkS (GSome top :: r) cur ctx stale nxt) (top :: r))) by (split; assumption).
-      destruct (mrun_forall bf Hf _ W0) as [R1 R2].
-      change (with_stack (canon (mkS (GSome top :: r) cur ctx stale nxt)) (gmap (set_ctx 0) top :: map cz r))
-        with (canon (with_stack (mkS (GSome top :: r) cur ctx stale nxt) (top :: r))).
-      split; [exact R1|]. intros s' E. destruct (R2 s' E) as [W' F']. split; [exact W'|exact F'].
-Qed.
-
-Lemma mrun_canon l : forall s,
+Lemma mrun_canon fuel l : forall s,
   swf s ->
-  mrel (mrun l s) (mrun l (canon s)) /\
-  (forall s', mrun l s = Done s' -> swf s' /\ frame s s').
+  mrel (mrun fuel l s) (mrun fuel l (canon s)) /\
+  (forall s', mrun fuel l s = Done s' -> swf s' /\ frame s s').
 Proof.
-  apply mrun_forall. apply Forall_forall. intros i _. apply mexec_canon.
+  unfold mrun. apply runl_forall, Forall_forall. intros i _. apply mexec_canon.
 Qed.
 
-(* attach_context: new big_maps are attached to the current context *)
 Lemma attach_canon cp cur v : forall c,
   attach cp 0 v c = (cz (fst (attach cp cur v c)), snd (attach cp cur v c)) /\ vwf cur (fst (attach cp cur v c)).
 Proof.
-  induction v as [| | | | |a IHa b IHb| |a IHa| |k t h]; intro c; simpl; auto.
+  induction v as [| | | | |a IHa b IHb| |a IHa| |k t h|bb|la lr lbody]; intro c; simpl; auto.
   - destruct (IHa c) as [Ea Wa]. rewrite Ea.
     destruct (attach cp cur a c) as [a' c1]. simpl in *.
     destruct (IHb c1) as [Eb Wb]. rewrite Eb.
@@ -473,7 +638,7 @@ Lemma aggregate_canon v : forall s,
   (forall v' d s', aggregate v s = Some (v', d, s') ->
      vwf (s_cur s) v' /\ frame s s' /\ s_stack s' = s_stack s).
 Proof.
-  induction v as [|z|z|str|z|a IHa b IHb|t0|a IHa|t0|k t h]; intros s W; simpl;
+  induction v as [|z|z|str|z|a IHa b IHb|t0|a IHa|t0|k t h|bb|la lr lbody]; intros s W; simpl;
     try (split; [reflexivity | intros v' d s' E; injection E as <- _ <-; simpl; auto using frame_refl]).
   - destruct W as [Wa Wb]. destruct (IHa s Wa) as [Ea Fa]. fold cz. rewrite Ea.
     destruct (aggregate a s) as [[[a' d1] s1]|]; [|split; [reflexivity|intros; discriminate]].
@@ -552,17 +717,17 @@ Qed.
 Lemma swf_with_stack_nil s : swf (with_stack s []).
 Proof. exact I. Qed.
 
-Lemma istep_canon i s :
+Lemma istep_canon fuel i s :
   swf s ->
-  orel (istep i s) (istep i (canon s)) /\
-  (forall s' o, istep i s = Done (s', o) -> swf s' /\ frame s s').
+  orel (istep fuel i s) (istep fuel i (canon s)) /\
+  (forall s' o, istep fuel i s = Done (s', o) -> swf s' /\ frame s s').
 Proof.
   intro W. destruct i; simpl.
   - (* Michelson *)
-    destruct (mexec_canon m s W) as [R1 R2].
-    destruct (mexec m s) as [s1|sf], (mexec m (canon s)) as [c1|cf]; simpl in R1; try contradiction.
+    destruct (mexec_canon fuel m s W) as [R1 R2].
+    destruct (mexec fuel m s) as [s1|b sf], (mexec fuel m (canon s)) as [c1|b' cf]; simpl in R1; try contradiction.
     + subst c1. split; [split; reflexivity|]. intros s' o E. injection E as <- _. auto.
-    + split; [exact I|]. intros; discriminate.
+    + split; [exact R1|]. intros; discriminate.
   - split; [split; reflexivity|]. intros s' o E. injection E as <- _. split; [exact W|split; reflexivity].
   - split; [split; reflexivity|]. intros s' o E. injection E as <- _. split; [exact W|split; reflexivity].
   - split; [split; reflexivity|]. intros s' o E. injection E as <- _. split; [exact W|split; reflexivity].
@@ -570,35 +735,35 @@ Proof.
     destruct (begin_canon p s0 s) as [E1 E2]. rewrite E1.
     destruct (begin p s0 s) as [s1|]; simpl.
     + split; [split; reflexivity|]. intros s' o E. injection E as <- _. auto.
-    + split; [exact I|]. intros; discriminate.
+    + split; [reflexivity|]. intros; discriminate.
   - (* COMMIT *)
     destruct (commit_canon s W) as [E1 E2]. rewrite E1.
     destruct (commit s) as [[[[d raw] res] s1]|]; simpl.
     + rewrite ptr_cz. split; [split; reflexivity|]. intros s' o E. injection E as <- _. eauto.
-    + split; [exact I|]. intros; discriminate.
+    + split; [reflexivity|]. intros; discriminate.
   - (* RUN *)
-    destruct (c_code (s_ctx s)) as [body|]; [|split; [exact I|intros; discriminate]].
+    destruct (c_code (s_ctx s)) as [body|]; [|split; [reflexivity|intros; discriminate]].
     destruct (begin_canon p s0 (with_stack s [])) as [E1 E2].
     change (with_stack (canon s) []) with (canon (with_stack s [])). rewrite E1.
-    destruct (begin p s0 (with_stack s [])) as [s1|]; simpl; [|split; [exact I|intros; discriminate]].
+    destruct (begin p s0 (with_stack s [])) as [s1|]; simpl; [|split; [reflexivity|intros; discriminate]].
     destruct (E2 s1 eq_refl) as [W1 F1].
-    destruct (mrun_canon body s1 W1) as [R1 R2].
-    destruct (mrun body s1) as [s2|sf], (mrun body (canon s1)) as [c2|cf]; simpl in R1; try contradiction.
-    2:{ split; [exact I|intros; discriminate]. }
+    destruct (mrun_canon fuel body s1 W1) as [R1 R2].
+    destruct (mrun fuel body s1) as [s2|b sf], (mrun fuel body (canon s1)) as [c2|b' cf]; simpl in R1; try contradiction.
+    2:{ split; [exact R1|intros; discriminate]. }
     subst c2. destruct (R2 s2 eq_refl) as [W2 F2].
     destruct (commit_canon s2 W2) as [E3 E4]. rewrite E3.
     destruct (commit s2) as [[[[d raw] res] s3]|]; simpl.
     + rewrite ptr_cz. split; [split; reflexivity|]. intros s' o E. injection E as <- _.
       destruct (E4 d raw res s3 eq_refl) as [W3 F3]. split; [exact W3|].
       apply (frame_trans _ (with_stack s [])); [split; reflexivity|]. eauto using frame_trans.
-    + split; [exact I|]. intros; discriminate.
+    + split; [reflexivity|]. intros; discriminate.
   - (* BIG_MAP_DIFF *)
-    destruct s as [st cur ctx stale nxt]. destruct st as [|top r]; simpl; [split; [exact I|intros; discriminate]|].
+    destruct s as [st cur ctx stale nxt]. destruct st as [|top r]; simpl; [split; [reflexivity|intros; discriminate]|].
     unfold swf in W. simpl in W. destruct W as [Wt Wr].
     destruct (aggregate_canon top (mkS (top :: r) cur ctx stale nxt) Wt) as [E F].
     change (mkS (gmap (set_ctx 0) top :: map cz r) 0 ctx [] 1) with (canon (mkS (top :: r) cur ctx stale nxt)).
     fold cz. rewrite E.
-    destruct (aggregate top _) as [[[v' d] s1]|]; simpl; [|split; [exact I|intros; discriminate]].
+    destruct (aggregate top _) as [[[v' d] s1]|]; simpl; [|split; [reflexivity|intros; discriminate]].
     destruct (F v' d s1 eq_refl) as (Wv & F1 & St1).
     split; [split; reflexivity|]. intros s' o E0. injection E0 as <- _.
     unfold swf. simpl. destruct F1 as [C1 N1]. simpl in C1. rewrite C1. split; [auto|split; assumption].
@@ -606,19 +771,19 @@ Proof.
     split; [split; reflexivity|]. intros s' o E. injection E as <- _. split; [exact I|split; reflexivity].
 Qed.
 
-Lemma irun_canon l : forall s acc,
+Lemma irun_canon fuel l : forall s acc,
   swf s ->
-  orel (irun l s acc) (irun l (canon s) acc) /\
-  (forall s' o, irun l s acc = Done (s', o) -> swf s' /\ frame s s').
+  orel (irun fuel l s acc) (irun fuel l (canon s) acc) /\
+  (forall s' o, irun fuel l s acc = Done (s', o) -> swf s' /\ frame s s').
 Proof.
   induction l as [|i r IH]; intros s acc W; simpl.
   - split; [split; reflexivity|]. intros s' o E. injection E as <- _. auto using frame_refl.
-  - destruct (istep_canon i s W) as [R1 R2].
-    destruct (istep i s) as [[s1 o1]|sf], (istep i (canon s)) as [[c1 o1']|cf]; simpl in R1; try contradiction.
+  - destruct (istep_canon fuel i s W) as [R1 R2].
+    destruct (istep fuel i s) as [[s1 o1]|b sf], (istep fuel i (canon s)) as [[c1 o1']|b' cf]; simpl in R1; try contradiction.
     + destruct R1 as [-> ->]. destruct (R2 s1 o1 eq_refl) as [W1 F1].
       destruct (IH s1 (acc ++ o1) W1) as [R3 R4]. split; [exact R3|].
       intros s' o E. destruct (R4 s' o E) as [W' F']. eauto using frame_trans.
-    + split; [exact I|]. intros; discriminate.
+    + split; [exact R1|]. intros; discriminate.
 Qed.
 
 (* ---------------------------------------------------------------------------------------- *)
@@ -645,11 +810,11 @@ Proof.
   split; [f_equal; exact E|exact W'].
 Qed.
 
-Lemma exec_cell_canon c s :
+Lemma exec_cell_canon fuel c s :
   swf s ->
-  snd (exec_cell Rebind s c) = snd (exec_cell Rebind (canon s) c) /\
-  view (fst (exec_cell Rebind s c)) = view (fst (exec_cell Rebind (canon s) c)) /\
-  swf (fst (exec_cell Rebind s c)) /\ swf (fst (exec_cell Rebind (canon s) c)).
+  snd (exec_cell Rebind fuel s c) = snd (exec_cell Rebind fuel (canon s) c) /\
+  view (fst (exec_cell Rebind fuel s c)) = view (fst (exec_cell Rebind fuel (canon s) c)) /\
+  swf (fst (exec_cell Rebind fuel s c)) /\ swf (fst (exec_cell Rebind fuel (canon s) c)).
 Proof.
   intro W. pose proof (swf_canon s) as Wc.
   destruct c as [| |l]; simpl.
@@ -657,59 +822,59 @@ Proof.
     rewrite E1, E2, view_canon. auto.
   - rewrite view_canon. auto.
   - destruct (forallb instr_valid l).
-    + destruct (irun_canon l s [] W) as [R1 R2].
-      destruct (irun l s []) as [[s1 o1]|sf], (irun l (canon s) []) as [[c1 o1']|cf]; simpl in R1; try contradiction.
+    + destruct (irun_canon fuel l s [] W) as [R1 R2].
+      destruct (irun fuel l s []) as [[s1 o1]|b sf], (irun fuel l (canon s) []) as [[c1 o1']|b' cf]; simpl in R1; try contradiction.
       * destruct R1 as [-> ->]. destruct (R2 s1 o1 eq_refl) as [W1 F1]. simpl.
         rewrite view_canon. auto using swf_canon.
-      * simpl. destruct (restore_rebind s sf W) as [E1 W1]. destruct (restore_rebind (canon s) cf Wc) as [E2 W2].
+      * subst b'. simpl. destruct (restore_rebind s sf W) as [E1 W1]. destruct (restore_rebind (canon s) cf Wc) as [E2 W2].
         rewrite E1, E2, view_canon. auto.
     + simpl. destruct (restore_rebind s s W) as [E1 W1]. destruct (restore_rebind (canon s) (canon s) Wc) as [E2 W2].
       rewrite E1, E2, view_canon. auto.
 Qed.
 
 (* sessions with the same view are indistinguishable by a cell *)
-Lemma exec_cell_rel c s s2 :
+Lemma exec_cell_rel fuel c s s2 :
   swf s -> swf s2 -> view s = view s2 ->
-  snd (exec_cell Rebind s c) = snd (exec_cell Rebind s2 c) /\
-  view (fst (exec_cell Rebind s c)) = view (fst (exec_cell Rebind s2 c)) /\
-  swf (fst (exec_cell Rebind s c)) /\ swf (fst (exec_cell Rebind s2 c)).
+  snd (exec_cell Rebind fuel s c) = snd (exec_cell Rebind fuel s2 c) /\
+  view (fst (exec_cell Rebind fuel s c)) = view (fst (exec_cell Rebind fuel s2 c)) /\
+  swf (fst (exec_cell Rebind fuel s c)) /\ swf (fst (exec_cell Rebind fuel s2 c)).
 Proof.
   intros W W2 E.
-  destruct (exec_cell_canon c s W) as (A1 & A2 & A3 & _).
-  destruct (exec_cell_canon c s2 W2) as (B1 & B2 & B3 & _).
+  destruct (exec_cell_canon fuel c s W) as (A1 & A2 & A3 & _).
+  destruct (exec_cell_canon fuel c s2 W2) as (B1 & B2 & B3 & _).
   rewrite (canon_of_view s s2 E) in A1, A2.
   repeat split; try assumption; congruence.
 Qed.
 
 (* a failing cell leaves the view as it was *)
-Lemma exec_cell_fail c s :
-  swf s -> snd (exec_cell Rebind s c) = RFail ->
-  view (fst (exec_cell Rebind s c)) = view s /\ swf (fst (exec_cell Rebind s c)).
+Lemma exec_cell_fail fuel c s :
+  swf s -> is_done (snd (exec_cell Rebind fuel s c)) = false ->
+  view (fst (exec_cell Rebind fuel s c)) = view s /\ swf (fst (exec_cell Rebind fuel s c)).
 Proof.
   intros W. destruct c as [| |l]; simpl.
   - intros _. apply restore_rebind, W.
   - auto.
   - destruct (forallb instr_valid l).
-    + destruct (irun l s []) as [[s1 o1]|sf]; simpl; [discriminate|].
+    + destruct (irun fuel l s []) as [[s1 o1]|b sf]; simpl; [discriminate|].
       intros _. apply restore_rebind, W.
     + intros _. apply restore_rebind, W.
 Qed.
 
-Lemma exec_cell_swf c s : swf s -> swf (fst (exec_cell Rebind s c)).
-Proof. intro W. apply (exec_cell_canon c s W). Qed.
+Lemma exec_cell_swf fuel c s : swf s -> swf (fst (exec_cell Rebind fuel s c)).
+Proof. intro W. apply (exec_cell_canon fuel c s W). Qed.
 
 (* ---------------------------------------------------------------------------------------- *)
 (* sessions                                                                                 *)
 (* ---------------------------------------------------------------------------------------- *)
 
-Lemma run_cons m s c r :
-  run m s (c :: r) =
-  (fst (run m (fst (exec_cell m s c)) r), snd (exec_cell m s c) :: snd (run m (fst (exec_cell m s c)) r)).
+Lemma run_cons m fuel s c r :
+  run m fuel s (c :: r) =
+  (fst (run m fuel (fst (exec_cell m fuel s c)) r), snd (exec_cell m fuel s c) :: snd (run m fuel (fst (exec_cell m fuel s c)) r)).
 Proof.
-  simpl. destruct (exec_cell m s c) as [s1 o]. simpl. destruct (run m s1 r) as [s2 os]. reflexivity.
+  simpl. destruct (exec_cell m fuel s c) as [s1 o]. simpl. destruct (run m fuel s1 r) as [s2 os]. reflexivity.
 Qed.
 
-Lemma run_swf cells : forall s, swf s -> swf (fst (run Rebind s cells)).
+Lemma run_swf fuel cells : forall s, swf s -> swf (fst (run Rebind fuel s cells)).
 Proof.
   induction cells as [|c r IH]; intros s W; [exact W|].
   rewrite run_cons. simpl. apply IH, exec_cell_swf, W.
@@ -717,22 +882,21 @@ Qed.
 
 (* main lemma: from two sessions with the same view, the session with the failing cells removed
    produces the results of the surviving cells and ends with the same view *)
-Lemma run_noop cells : forall s s2,
+Lemma run_noop fuel cells : forall s s2,
   swf s -> swf s2 -> view s = view s2 ->
-  let rs := snd (run Rebind s cells) in
-  snd (run Rebind s2 (keep_done cells rs)) = filter is_done rs /\
-  view (fst (run Rebind s2 (keep_done cells rs))) = view (fst (run Rebind s cells)).
+  let rs := snd (run Rebind fuel s cells) in
+  snd (run Rebind fuel s2 (keep_done cells rs)) = filter is_done rs /\
+  view (fst (run Rebind fuel s2 (keep_done cells rs))) = view (fst (run Rebind fuel s cells)).
 Proof.
   induction cells as [|c r IH]; intros s s2 W W2 E; cbv zeta.
   - simpl. auto.
   - rewrite run_cons. simpl snd. simpl fst. simpl keep_done. simpl filter.
-    destruct (is_done (snd (exec_cell Rebind s c))) eqn:D.
-    + destruct (exec_cell_rel c s s2 W W2 E) as (R1 & R2 & R3 & R4).
+    destruct (is_done (snd (exec_cell Rebind fuel s c))) eqn:D.
+    + destruct (exec_cell_rel fuel c s s2 W W2 E) as (R1 & R2 & R3 & R4).
       rewrite run_cons. simpl snd. simpl fst.
       destruct (IH _ _ R3 R4 R2) as [I1 I2].
       rewrite <- R1, I1, I2. auto.
-    + assert (F : snd (exec_cell Rebind s c) = RFail) by (destruct (snd (exec_cell Rebind s c)); [discriminate|reflexivity]).
-      destruct (exec_cell_fail c s W F) as [V1 W1].
+    + destruct (exec_cell_fail fuel c s W D) as [V1 W1].
       apply (IH _ _ W1 W2). congruence.
 Qed.
 
@@ -743,15 +907,15 @@ Lemma filter_done_all rs : forallb is_done (filter is_done rs) = true.
 Proof. induction rs as [|r rs IH]; simpl; [reflexivity|]. destruct (is_done r) eqn:D; simpl; [rewrite D|]; exact IH. Qed.
 
 (* equal views stay equal under any continuation, with equal results *)
-Lemma run_rel cells : forall s s2,
+Lemma run_rel fuel cells : forall s s2,
   swf s -> swf s2 -> view s = view s2 ->
-  snd (run Rebind s cells) = snd (run Rebind s2 cells) /\
-  view (fst (run Rebind s cells)) = view (fst (run Rebind s2 cells)).
+  snd (run Rebind fuel s cells) = snd (run Rebind fuel s2 cells) /\
+  view (fst (run Rebind fuel s cells)) = view (fst (run Rebind fuel s2 cells)).
 Proof.
   induction cells as [|c r IH]; intros s s2 W W2 E.
   - simpl. auto.
   - rewrite !run_cons. simpl fst. simpl snd.
-    destruct (exec_cell_rel c s s2 W W2 E) as (R1 & R2 & R3 & R4).
+    destruct (exec_cell_rel fuel c s s2 W W2 E) as (R1 & R2 & R3 & R4).
     destruct (IH _ _ R3 R4 R2) as [I1 I2]. rewrite R1, I1, I2. auto.
 Qed.
 
@@ -769,21 +933,22 @@ Definition witness_19 : list cell :=
 Definition commit_ids (rs : list cellres) : list Z :=
   flat_map (fun r => match r with
                      | RDone o => flat_map (fun x => match x with OCommit d _ => map d_id d | _ => [] end) o
-                     | RFail => []
+                     | _ => []
                      end) rs.
 
 Lemma alias_refuted :
-  let rs := snd (run Alias init witness_19) in
+  let rs := snd (run Alias 8 init witness_19) in
   commit_ids rs = [0; 0]%Z /\
-  commit_ids (snd (run Alias init (keep_done witness_19 rs))) = [0; 1]%Z.
+  commit_ids (snd (run Alias 8 init (keep_done witness_19 rs))) = [0; 1]%Z.
 Proof. vm_compute. split; reflexivity. Qed.
 
 Lemma rebind_witness :
-  let rs := snd (run Rebind init witness_19) in
+  let rs := snd (run Rebind 8 init witness_19) in
   map is_done rs = [true; true; true; false; true; true; true] /\
   commit_ids rs = [0; 1]%Z /\
-  commit_ids (snd (run Rebind init (keep_done witness_19 rs))) = [0; 1]%Z.
+  commit_ids (snd (run Rebind 8 init (keep_done witness_19 rs))) = [0; 1]%Z.
 Proof. vm_compute. repeat split; reflexivity. Qed.
+
 (* ---------------------------------------------------------------------------------------- *)
 (* the old restore (mode Alias) on the complement of the defect's class                     *)
 (* ---------------------------------------------------------------------------------------- *)
@@ -799,16 +964,16 @@ Fixpoint no_handles (v : value) : bool :=
 Definition stack_clean (s : session) : bool := forallb no_handles (s_stack s).
 
 (* decidable on the cell sequence (by running it): whenever a cell fails, no big_map is on the stack *)
-Fixpoint alias_safe (s : session) (cells : list cell) : bool :=
+Fixpoint alias_safe (fuel : nat) (s : session) (cells : list cell) : bool :=
   match cells with
   | [] => true
   | c :: r =>
-      (is_done (snd (exec_cell Alias s c)) || stack_clean s) && alias_safe (fst (exec_cell Alias s c)) r
+      (is_done (snd (exec_cell Alias fuel s c)) || stack_clean s) && alias_safe fuel (fst (exec_cell Alias fuel s c)) r
   end.
 
 Lemma gmap_no_handles (f : handle -> handle) v : no_handles v = true -> gmap f v = v.
 Proof.
-  induction v as [|z|z|str|z|a IHa b IHb|t0|a IHa|t0|k t h]; simpl; intro H; try reflexivity.
+  induction v as [|z|z|str|z|a IHa b IHb|t0|a IHa|t0|k t h|bb|la lr lbody]; simpl; intro H; try reflexivity.
   - apply andb_true_iff in H. destruct H as [Ha Hb]. rewrite IHa, IHb; auto.
   - rewrite IHa; auto.
   - discriminate.
@@ -822,52 +987,78 @@ Proof.
   rewrite (gmap_no_handles _ a Ha), <- IH; auto.
 Qed.
 
-Lemma exec_cell_clean s c : stack_clean s = true -> exec_cell Alias s c = exec_cell Rebind s c.
+Lemma exec_cell_clean fuel s c : stack_clean s = true -> exec_cell Alias fuel s c = exec_cell Rebind fuel s c.
 Proof.
   intro H. destruct c as [| |l]; simpl; try reflexivity.
   - rewrite restore_clean; auto.
   - destruct (forallb instr_valid l); [|rewrite restore_clean; auto].
-    destruct (irun l s []) as [[s1 o]|sf]; [reflexivity|]. rewrite restore_clean; auto.
+    destruct (irun fuel l s []) as [[s1 o]|b sf]; [reflexivity|]. rewrite restore_clean; auto.
 Qed.
 
-Lemma exec_cell_done_mode m m' s c :
-  is_done (snd (exec_cell m s c)) = true -> exec_cell m' s c = exec_cell m s c.
+Lemma exec_cell_done_mode m m' fuel s c :
+  is_done (snd (exec_cell m fuel s c)) = true -> exec_cell m' fuel s c = exec_cell m fuel s c.
 Proof.
   destruct c as [| |l]; simpl; try discriminate.
   destruct (forallb instr_valid l); [|discriminate].
-  destruct (irun l s []) as [[s1 o]|sf]; [reflexivity|discriminate].
+  destruct (irun fuel l s []) as [[s1 o]|b sf]; [reflexivity|destruct b; discriminate].
 Qed.
 
-Lemma run_alias_safe cells : forall s, alias_safe s cells = true -> run Alias s cells = run Rebind s cells.
+Lemma run_alias_safe fuel cells : forall s, alias_safe fuel s cells = true -> run Alias fuel s cells = run Rebind fuel s cells.
 Proof.
   induction cells as [|c r IH]; intros s H; [reflexivity|].
   simpl in H. apply andb_true_iff in H. destruct H as [H1 H2].
-  assert (E : exec_cell Alias s c = exec_cell Rebind s c).
+  assert (E : exec_cell Alias fuel s c = exec_cell Rebind fuel s c).
   { apply orb_true_iff in H1. destruct H1 as [D|C].
     - symmetry. apply exec_cell_done_mode, D.
     - apply exec_cell_clean, C. }
   rewrite !run_cons, <- E, (IH _ H2). reflexivity.
 Qed.
 
-Lemma run_all_done cells : forall s,
-  forallb is_done (snd (run Rebind s cells)) = true -> run Alias s cells = run Rebind s cells.
+Lemma run_all_done fuel cells : forall s,
+  forallb is_done (snd (run Rebind fuel s cells)) = true -> run Alias fuel s cells = run Rebind fuel s cells.
 Proof.
   induction cells as [|c r IH]; intros s H; [reflexivity|].
   rewrite run_cons in H. simpl in H. apply andb_true_iff in H. destruct H as [H1 H2].
-  rewrite !run_cons, (exec_cell_done_mode Rebind Alias s c H1), (IH _ H2). reflexivity.
+  rewrite !run_cons, (exec_cell_done_mode Rebind Alias fuel s c H1), (IH _ H2). reflexivity.
 Qed.
 
-Lemma alias_partial cells :
-  alias_safe init cells = true ->
-  let rs := snd (run Alias init cells) in
-  snd (run Alias init (keep_done cells rs)) = filter is_done rs /\
-  view (fst (run Alias init (keep_done cells rs))) = view (fst (run Alias init cells)).
+Lemma alias_partial fuel cells :
+  alias_safe fuel init cells = true ->
+  let rs := snd (run Alias fuel init cells) in
+  snd (run Alias fuel init (keep_done cells rs)) = filter is_done rs /\
+  view (fst (run Alias fuel init (keep_done cells rs))) = view (fst (run Alias fuel init cells)).
 Proof.
-  intro H. cbv zeta. rewrite (run_alias_safe cells init H).
-  destruct (run_noop cells init init swf_init swf_init eq_refl) as [E1 E2]. cbv zeta in E1, E2.
+  intro H. cbv zeta. rewrite (run_alias_safe fuel cells init H).
+  destruct (run_noop fuel cells init init swf_init swf_init eq_refl) as [E1 E2]. cbv zeta in E1, E2.
   rewrite run_all_done; [auto|]. rewrite E1. apply filter_done_all.
 Qed.
 
 (* the class is not empty and does not contain the witness *)
-Lemma alias_safe_witness : alias_safe init witness_19 = false.
+Lemma alias_safe_witness : alias_safe 8 init witness_19 = false.
 Proof. vm_compute. reflexivity. Qed.
+
+(* ---------------------------------------------------------------------------------------- *)
+(* fuel: results that do not mention RFuel are statements about terminating runs            *)
+(* ---------------------------------------------------------------------------------------- *)
+
+Lemma filter_fuel_ok rs : forallb fuel_ok rs = true -> forallb fuel_ok (filter is_done rs) = true.
+Proof.
+  induction rs as [|r rs IH]; simpl; [reflexivity|]. intro H. apply andb_true_iff in H. destruct H as [H1 H2].
+  destruct (is_done r); simpl; [rewrite H1|]; auto.
+Qed.
+
+(* a lambda stored on the stack by one cell and run by a later, failing, cell: the shape of seed C22-7 *)
+Definition stored_lambda_session : list cell :=
+  [ CCode [IM (MLambda TUnit (TBigMap TString TNat) [MDrop; MEmptyBigMap TString TNat])];
+    CCode [IM MDup; IM MUnit; IM MExec; IM (MPush TNat (NInt 1)); IM MSome; IM (MPush TString (NStr (tx "x")));
+           IM MUpdate; IM MDrop; IM (MPush TString (NStr (tx "boom"))); IM MFailwith];
+    CCode [IM MUnit; IM MExec];
+    CCode [IStorage (TBigMap TString TNat); IParameter TUnit];
+    CCode [IM (MNil TOperation); IM MPair; ICommit] ].
+
+Lemma stored_lambda_example :
+  let rs := snd (run Rebind 8 init stored_lambda_session) in
+  map is_done rs = [true; false; true; true; true] /\
+  forallb fuel_ok rs = true /\
+  c_tmp (snd (view (fst (run Rebind 8 init stored_lambda_session)))) = 1%Z.
+Proof. vm_compute. repeat split; reflexivity. Qed.
